@@ -56,7 +56,8 @@ def _cfg_unchanged(*changed):
 
 REG.add(Contract("Rule.__init__", module=M_RULE, kind="method", params=dict(self="Rule", rule_matcher_class="Opaque[MatcherClass]"),
                  returns="None", modifies=["self"],
-                 ensures=["is_none(self._modules_to_check_to_be_specified_next)", "is_none(self._configuration.modules_to_check)",
+                 ensures=["self._rule_matcher_class == rule_matcher_class",
+                          "is_none(self._modules_to_check_to_be_specified_next)", "is_none(self._configuration.modules_to_check)",
                           "is_none(self._configuration.modules_to_check_against)", "not self._configuration.should",
                           "not self._configuration.should_only", "not self._configuration.should_not",
                           "not self._configuration.except_present", "is_none(self._configuration.import_)",
